@@ -458,6 +458,16 @@ impl CongestionController {
     //   SetLossDetectionTimer()
     fn discard_epoch(&mut self, epoch: Epoch) {
         assert!(epoch != Epoch::Data);
+        // Discarding a space happens once. The client calls this for every Handshake packet
+        // it sends: when the space holds nothing any more, resetting pto_count and the timer
+        // again would cancel the PTO backoff.
+        let space = &self.packet_spaces[epoch];
+        if space.sent_packets.is_empty()
+            && space.time_of_last_ack_eliciting_packet.is_none()
+            && space.loss_time.is_none()
+        {
+            return;
+        }
         self.packet_spaces[epoch].discard(&mut self.algorithm);
         self.loss_detection_timer = None;
         self.pto_count = 0;
